@@ -209,6 +209,57 @@ def judge(ctx, kind, graph_seed, knobs, a_mode, b_mode, p_outside):
     _spec = None
 
 
+CWD_SPELLINGS = {"dot": ".", "empty": "", "dot_slash": "./", "dot_path": Path("."), "empty_path": Path()}
+
+
+def judge_cwd_dir(ctx, kind, graph_seed, knobs, spelling, relative_root):
+    """The audio directory is the working directory, spelled '.', '', './' or Path() (``os.path.dirname('ds.json')`` is
+    ''): relative recording paths lie inside it and are stored as they are; an absolute recording path does not, and the
+    save fails without writing."""
+    import soundevent.io as IO
+
+    A = Path("relative audio") / "A" if relative_root else Path(AC.tmpdir()) / "audio root ✓" / "A"
+    obj, gen = graphs.make(kind, graph_seed, audio_root=A, p_outside=0.0, **knobs)
+    recs = _recordings(obj)
+    spec = {"kind": "cwd_dir", "collection": kind, "graph_seed": graph_seed, "knobs": knobs, "spelling": spelling, "relative_root": relative_root,
+            "recordings": [str(r.path) for r in list(recs.values())[:4]]}
+    any_abs = any(Path(r.path).is_absolute() for r in recs.values())
+    ctx.case((kind, "cwd_dir:" + spelling, "absolute" if any_abs else "relative", "none" if not recs else "some"), spec)
+    path = os.path.join(AC.tmpdir(), f"c18-cwd-{os.getpid()}.json")
+    if os.path.exists(path):
+        os.remove(path)
+    AC.HOOKS[:] = []
+    try:
+        try:
+            IO.save(obj, path, audio_dir=CWD_SPELLINGS[spelling])
+        except Exception as e:
+            ctx.mon("save_rejection")
+            if not any_abs:
+                ctx.violate_exc("save_raises", f"save_raises:{kind}:{type(e).__name__}", e, spec=spec)
+            elif not isinstance(e, ValueError):
+                ctx.violate_exc("outside_error_type", f"outside_error_type:{type(e).__name__}", e, spec=spec)
+            if os.path.exists(path):
+                ctx.violate("failed_save_writes_nothing", "failed_save_writes_nothing:file_created", observed=Path(path).read_text()[:200], expected="no file", spec=spec)
+            return
+        if any_abs:
+            ctx.violate("outside_recording_rejected", f"outside_recording_rejected:{kind}:working_directory_spelling", observed="save succeeded", expected="error", spec=spec)
+            return
+        ctx.mon("paths_saved")
+        stored = {e["uuid"]: e["path"] for e in (json.loads(Path(path).read_text()).get("data", {}).get("recordings") or [])}
+        for u, r in recs.items():
+            if str(u) in stored and PurePosixPath(stored[str(u)]) != PurePosixPath(str(r.path)):
+                ctx.violate("stored_relative", "stored_relative:working_directory_spelling", observed=stored[str(u)], expected=str(r.path), spec=spec)
+                return
+        loaded = IO.load(path)
+        ctx.mon("paths_loaded")
+        for u, r in _recordings(loaded).items():
+            if u in recs and PurePosixPath(str(r.path)) != PurePosixPath(str(recs[u].path)):
+                ctx.violate("loaded_path", "loaded_path:working_directory_spelling", observed=str(r.path), expected=str(recs[u].path), spec=spec)
+                return
+    finally:
+        AC.HOOKS[:] = [_hook]
+
+
 def run(ctx):
     AC.install()
     AC.HOOKS[:] = [_hook]
@@ -226,12 +277,18 @@ def run(ctx):
             b = rng.choice(["same", "str", "path", "none"]) if a != "none" else rng.choice(["none", "none", "str"])
             po = rng.choice([0.0, 0.0, 0.0, 0.3, 1.0])
             judge(ctx, kind, rng.getrandbits(40), knobs, a, b, po)
+        for i in range(ctx.scale(10, 40)):
+            knobs = {"p_opt": rng.choice([0.3, 0.8]), "p_share": rng.choice([0.2, 0.6]), "size": rng.choice([1, 2])}
+            judge_cwd_dir(ctx, kind, rng.getrandbits(40), knobs, rng.choice(list(CWD_SPELLINGS)), rng.random() < 0.5)
 
 
 def replay(ctx, w):
     AC.install()
     AC.HOOKS[:] = [_hook]
     s = w["spec"]
+    if s.get("kind") == "cwd_dir":
+        judge_cwd_dir(ctx, s["collection"], s["graph_seed"], s["knobs"], s["spelling"], s["relative_root"])
+        return
     judge(ctx, s["collection"], s["graph_seed"], s["knobs"], s["a"], s["b"], s["p_outside"])
 
 
